@@ -2,6 +2,7 @@ import Mimium.Model.HotSwap
 import Mimium.Proofs.StateTreeApply
 import Mimium.Model.Core
 import Mimium.Props.C08
+import Mimium.Props.C05
 /-!
 # C06 — hot-swapping an unchanged program is inaudible
 
@@ -11,7 +12,11 @@ swapping to a program with the same dsp layout hands the new machine exactly the
 because no plan is built and the storage is cloned, on WASM because the whole-storage copy plan overwrites every
 word of the prewarmed state.  And in the reference semantics a machine is a function of (globals, state tree,
 sample index) only, so equal machines produce equal futures, however often the swap is repeated
-(`C06_same_machine_same_future`).  That the real runtimes behave like this (including re-running `main`, `now`
+(`C06_same_machine_same_future`).  Stronger (built on `C05_eval_respects_agreement`): the future is a function of the
+globals, the sample index and the FLAT STATE WORDS of `dsp` alone — two reference machines whose `dsp` trees serialise to
+the same words under a labelled layout covering `dsp`'s body produce the same samples forever
+(`C06_same_words_same_future`), in particular the machine whose tree is read back from the words a swap hands over
+(`C06_swap_words_same_future`).  That the real runtimes behave like this (including re-running `main`, `now`
 continuing, closures/arrays glue in `new_resume`) is decided by the correspondence stage: real swaps at every
 split point on both runtimes against the uninterrupted run.
 -/
@@ -98,5 +103,69 @@ theorem C06_split_run (fuel : Nat) (P : Prog) (sr : UInt64) (inputs : Nat → Li
         obtain ⟨rfl, rfl⟩ := h
         simp only [ih k m' o2 m2 hrest, Option.map_map]
         congr 1
+
+open Mimium.FlatTree in
+/-- machines with the same globals and sample index whose `dsp` states agree on the cells of a layout covering
+`dsp`'s body produce the same samples, for every run length -/
+theorem C06_agreeing_machines_same_future (fuel : Nat) (P : Prog) (sr : UInt64) (inputs : Nat → List UInt64)
+    (lay : LNode) (hl : lay.Ok) (hself : P.dsp.selfShape = lay.self) (hc : Covers P lay.cells P.dsp.body) :
+    ∀ (k : Nat) (m₁ m₂ : Machine), MAgree lay m₁ m₂ →
+      runFrom fuel P sr inputs k m₁ = runFrom fuel P sr inputs k m₂ := by
+  intro k
+  induction k with
+  | zero => intro m₁ m₂ _; simp [runFrom]
+  | succ k ih =>
+    intro m₁ m₂ h
+    have hs := step_agree fuel P sr lay hl hself hc m₁ m₂ (inputs m₂.t) h
+    simp only [runFrom, h.2.1]
+    cases h1 : Machine.step fuel P sr m₁ (inputs m₂.t) with
+    | error e1 =>
+      cases h2 : Machine.step fuel P sr m₂ (inputs m₂.t) with
+      | error e2 => rfl
+      | ok r2 => simp [h1, h2, SRel] at hs
+    | ok r1 =>
+      cases h2 : Machine.step fuel P sr m₂ (inputs m₂.t) with
+      | error e2 => simp [h1, h2, SRel] at hs
+      | ok r2 =>
+        obtain ⟨o1, m1'⟩ := r1
+        obtain ⟨o2, m2'⟩ := r2
+        simp only [h1, h2, SRel] at hs
+        simp only [hs.1, ih m1' m2' hs.2]
+
+open Mimium.FlatTree in
+/-- **the future is a function of the flat state words.**  Two machines with the same globals and sample index whose
+`dsp` trees conform to a labelled layout covering `dsp`'s body and serialise to the same words: same samples forever -/
+theorem C06_same_words_same_future (fuel : Nat) (P : Prog) (sr : UInt64) (inputs : Nat → List UInt64)
+    (lay : LNode) (hl : lay.Ok) (hself : P.dsp.selfShape = lay.self) (hc : Covers P lay.cells P.dsp.body)
+    (k : Nat) (m₁ m₂ : Machine) (hst : m₁.store = m₂.store) (ht : m₁.t = m₂.t)
+    (h1 : ConformsS lay m₁.root) (h2 : ConformsS lay m₂.root)
+    (hw : serialize lay m₁.root = serialize lay m₂.root) :
+    runFrom fuel P sr inputs k m₁ = runFrom fuel P sr inputs k m₂ :=
+  C06_agreeing_machines_same_future fuel P sr inputs lay hl hself hc k m₁ m₂
+    ⟨hst, ht, C05_same_words_agree lay _ _ h1 h2 hw⟩
+
+open Mimium.FlatTree in
+/-- a swap hands over the flat words (`C06_vm_resume_same_layout`, `C06_wasm_swap_same_layout`): the machine whose
+`dsp` tree is READ BACK from those words continues exactly like the uninterrupted machine, for every run length -/
+theorem C06_swap_words_same_future (fuel : Nat) (P : Prog) (sr : UInt64) (inputs : Nat → List UInt64)
+    (lay : LNode) (hl : lay.Ok) (hself : P.dsp.selfShape = lay.self) (hc : Covers P lay.cells P.dsp.body)
+    (k : Nat) (m : Machine) (h : ConformsS lay m.root) :
+    runFrom fuel P sr inputs k ⟨m.store, deserialize lay (serialize lay m.root), m.t⟩ = runFrom fuel P sr inputs k m := by
+  have hlen : (serialize lay m.root).length = lay.sk.size := C05_serialize_size lay _ (conformsS_conforms _ _ h)
+  have hr := C05_serialize_deserialize lay _ hl hlen
+  exact C06_same_words_same_future fuel P sr inputs lay hl hself hc k _ m rfl rfl
+    (canon_conformsS lay _ hl hr.2.1) h hr.1
+
+/-! non-vacuity: `dsp = self + mem(x)`; after one sample the reference machine's tree is not canonical-by-construction
+but conforms, and the hypotheses of the three theorems hold -/
+open Mimium.FlatTree in
+example :
+    let P : Prog := ⟨[], [], ⟨"dsp", ["x"], .bin .add .self (.mem (.var "x") 0), some .num⟩⟩
+    let lay : LNode := ⟨some .num, [.mem 0]⟩
+    lay.Ok ∧ P.dsp.selfShape = lay.self ∧ Covers P lay.cells P.dsp.body ∧ ConformsS lay SNode.empty := by
+  intro P lay
+  refine ⟨by simp [lay, LNode.Ok, LayOkL, LayOk, sitesOf], rfl, .bin .self (.mem .var (by simp [lay])), ?_, ?_⟩
+  · intro v hv; simp [SNode.empty, SNode.selfv] at hv
+  · simp [lay, ConfSL, ConfS]
 
 end Mimium.Core
